@@ -18,13 +18,22 @@ class TooBig(Exception):
     """analysis budget for one instance exhausted (never a verdict)"""
 
 
-_budget = [None, None]      # (max interned terms, deadline)
+_budget = [None, None]      # (max interned terms, max work ticks): deterministic, never wall-clock
+_work = [0]
 
 
 def set_budget(nodes=None, seconds=None):
-    import time
+    """seconds is a nominal figure converted into work ticks (about 150k constructor / evaluation
+    steps per nominal second) so that verdicts do not depend on machine load"""
     _budget[0] = (len(_intern) + nodes) if nodes else None
-    _budget[1] = (time.time() + seconds) if seconds else None
+    _work[0] = 0
+    _budget[1] = int(seconds * 150000) if seconds else None
+
+
+def work(n=1):
+    _work[0] += n
+    if _budget[1] is not None and _work[0] > _budget[1]:
+        raise TooBig("work budget")
 
 
 def mk(*t):
@@ -38,10 +47,6 @@ def mk(*t):
         r = t
         if _budget[0] is not None and n > _budget[0]:
             raise TooBig("more than the node budget")
-        if _budget[1] is not None and (n & 1023) == 0:
-            import time
-            if time.time() > _budget[1]:
-                raise TooBig("time budget")
     return r
 
 
@@ -330,11 +335,7 @@ _tick = [0]
 
 
 def _check_time():
-    _tick[0] += 1
-    if (_tick[0] & 255) == 0 and _budget[1] is not None:
-        import time
-        if time.time() > _budget[1]:
-            raise TooBig("time budget")
+    work(1)
 
 
 def not_(t):
@@ -1538,6 +1539,16 @@ def ubound(t):
         a, b = ubound(t[3]), ubound(t[4])
         if a is not None and b is not None:
             return max(a, b)
+    if t[0] in ("mul", "add"):
+        bs = [ubound(x) for x in t[2:]]
+        if all(b is not None for b in bs):
+            r = 1 if t[0] == "mul" else 0
+            for b in bs:
+                r = r * b if t[0] == "mul" else r + b
+            if r <= mask(w):
+                return r
+    if t[0] == "arg":
+        return mask(w)
     return None
 
 
